@@ -1,4 +1,4 @@
 From Coq Require Import Extraction ExtrOcamlBasic.
 From OV Require Import Common.Base C16.Model.
 Extraction Language OCaml.
-Extraction "C16_model.ml" seq_less new_endpoint init_sys step run ep_submit ep_deliver ep_tick ep_setwin dispatch node_dispatch node_step node_run runner_next apply_peer_window flush_ack ep_flush conn_step conn_opens.
+Extraction "C16_model.ml" seq_less new_endpoint init_sys step run ep_submit ep_deliver ep_tick ep_setwin dispatch node_dispatch node_step node_run runner_next apply_peer_window flush_ack ep_flush conn_step conn_opens head_choice.
